@@ -923,6 +923,28 @@ fn main() {
                     if bad.is_empty() { "ok".into() } else { bad.join("; ") }
                 }
             }
+            "wreads" => {
+                // wreads <ks> <key>: the point reads and first/last of the TRANSACTIONAL keyspace's own methods next to the inner keyspace's answers
+                let key = unhex(a[1]);
+                fn show<E: std::fmt::Debug>(g: Result<Option<fjall::UserValue>, E>, s: Result<Option<u32>, E>, c: Result<bool, E>, f: Option<fjall::Guard>, l: Option<fjall::Guard>) -> String {
+                    let g = match g { Ok(Some(v)) => format!("some:{}", hex(&v)), Ok(None) => "none".into(), Err(e) => format!("err:{e:?}") };
+                    let kv = |x: Option<fjall::Guard>| match x { Some(gd) => match gd.into_inner() { Ok((k, v)) => format!("{}:{}", hex(&k), hex(&v)), Err(e) => format!("err:{e:?}") }, None => "none".into() };
+                    format!("get={g};size={:?};contains={:?};first={};last={}", s.ok(), c.ok(), kv(f), kv(l))
+                }
+                match w.ks.get(a[0]) {
+                    Some(Ks::Opt(k)) => {
+                        let i = k.inner();
+                        format!("w[{}] i[{}]", show(k.get(&key), k.size_of(&key), k.contains_key(&key), k.first_key_value(), k.last_key_value()),
+                                show(i.get(&key), i.size_of(&key), i.contains_key(&key), i.first_key_value(), i.last_key_value()))
+                    }
+                    Some(Ks::Single(k)) => {
+                        let i = k.inner();
+                        format!("w[{}] i[{}]", show(k.get(&key), k.size_of(&key), k.contains_key(&key), k.first_key_value(), k.last_key_value()),
+                                show(i.get(&key), i.size_of(&key), i.contains_key(&key), i.first_key_value(), i.last_key_value()))
+                    }
+                    _ => "err:NotTransactional".into(),
+                }
+            }
             "rotate_wait" => match w.ks.get(a[0]) {
                 // rotate the memtable and wait until a worker thread has flushed it
                 Some(k) => match k.inner().rotate_memtable_and_wait() { Ok(()) => "ok".into(), Err(e) => format!("err:{}", errname(&e)) },
